@@ -25,7 +25,7 @@ func init() {
 		Explain: "The statement as a whole depends on which references survive into the rendered tree (references inside image alt text or inside the body of an unreferenced footnote are counted but not rendered — the dangling back-links reported in the property text); that is a property of documents and is NOT decided. Decided are the structural conditions without which no document could be consistent: (T) the id written for a reference and the href written for its back-link, and the href written for a reference and the id written for its footnote item, are built from the same template — the same sequence of constants, the same id prefix and the same node fields (Index, RefIndex under the same condition), extracted from the sink model's attribute contexts; (N) a footnote's Index is assigned only from the list counter immediately after incrementing it and only while the footnote is still unnumbered, so numbers are 1..Count in order of first reference; definitions still unnumbered are removed from the list and the list is sorted by a comparator on Index; (B) the transformer creates, for a footnote with reference count c, exactly the back-links RefIndex 0..c-1 with that Index, and numbers the references of one footnote 0,1,2,… in list order by the same counter discipline. (A) the inline parser never numbers a definition without returning the reference node in the same call; (I) no loop of the footnote code advances its sibling cursor through a node it detached in the same iteration. Not decided: that every counted reference is rendered (known deviation), distinctness of generated ids from user ids, nesting of footnotes in footnotes.",
 		Trusted: []string{"sink model and HTML lexer-state dataflow (DESIGN 2.5)", "SortChildren sorts by the comparator (C13)"},
 		Assumes: []string{"built-in footnote extension only"},
-		Rules: append(append([]func(*World, *Report){}, treeRuleSet...), ruleFootnoteTemplates, ruleFootnoteNumbering, ruleNumberedMeansReferenced, ruleOneDefinitionPerReference, ruleSortInsertionPoint, ruleDocumentStateCleared,
+		Rules: append(append([]func(*World, *Report){}, treeRuleSet...), ruleFootnoteTemplates, ruleFootnoteNumbering, ruleNumberedMeansReferenced, ruleOneDefinitionPerReference, ruleSortInsertionPoint, ruleDocumentStateCleared, ruleReturnedReferenceRegistered,
 			ruleIterationSafety("C16-I", func(w *World, fn *ssa.Function) bool { return inSourceFile(w, fn, "extension/footnote.go") }, 1)),
 	})
 }
@@ -1064,4 +1064,84 @@ func ruleOneDefinitionPerReference(w *World, r *Report) {
 		}
 	}
 	r.Expect("numbering stores", n, 1)
+}
+
+// ---- C16-L ---------------------------------------------------------------------------------------------------
+
+// ruleReturnedReferenceRegistered: every reference node the inline parser hands to the tree is also entered into the
+// per-document list from which reference ids (RefIndex) and back-links are computed.
+func ruleReturnedReferenceRegistered(w *World, r *Report) {
+	r.Rule("C16-L", "In every function that returns a newly built FootnoteLink (the footnote inline parser), each return of it is dominated by a context Set under the link-list key (the accumulator the AST transformer consumes) whose value is an append of that very node. A reference that reaches the tree without being registered is rendered with RefIndex 0 — the same id as the first registered reference of that footnote — and gets no back-link: ids collide and references and back-links no longer correspond.")
+	linkT := w.Named("extension/ast", "FootnoteLink")
+	if linkT == nil {
+		r.Unknown("extension/ast.FootnoteLink", "", "not found")
+		return
+	}
+	n := 0
+	for _, fn := range w.Funcs {
+		if w.PkgOf(fn) != modPath+"/extension" || fn.Parent() != nil {
+			continue
+		}
+		for _, b := range fn.Blocks {
+			ret, ok := b.Instrs[len(b.Instrs)-1].(*ssa.Return)
+			if !ok || len(ret.Results) == 0 {
+				continue
+			}
+			for _, leaf := range phiLeaves(ret.Results[0]) {
+				v := stripIfaceConv(leaf)
+				c, isCall := v.(*ssa.Call)
+				if !isCall {
+					continue
+				}
+				nt := namedOf(c.Type())
+				if nt == nil || nt.Obj() != linkT.Obj() || c.Parent() != fn {
+					continue
+				}
+				n++
+				key := fmt.Sprintf("%s: returned reference is registered", w.FnKey(fn))
+				registered := false
+				for _, bb := range fn.Blocks {
+					for _, ins := range bb.Instrs {
+						sc, ok := ins.(ssa.CallInstruction)
+						if !ok {
+							continue
+						}
+						g, op := ctxKeyOf(sc)
+						if g == nil || op != "Set" {
+							continue
+						}
+						ap, ok := stripMakeIface(sc.Common().Args[1]).(*ssa.Call)
+						if !ok || builtinName(ap.Common()) != "append" || len(ap.Common().Args) != 2 {
+							continue
+						}
+						// append(list, node...) : the variadic slice holds the node
+						holds := false
+						operandsClosure(ap.Common().Args[1], func(x ssa.Value) bool {
+							if al, ok := x.(*ssa.Alloc); ok {
+								for _, ref := range referrersOf(al) {
+									if ia, ok := ref.(*ssa.IndexAddr); ok {
+										for _, r2 := range referrersOf(ia) {
+											if st, ok := r2.(*ssa.Store); ok && st.Val == ssa.Value(c) {
+												holds = true
+											}
+										}
+									}
+								}
+							}
+							return !holds
+						})
+						if holds && (bb == b || bb.Dominates(b)) {
+							registered = true
+						}
+					}
+				}
+				if registered {
+					r.OK(key, w.InstrPos(ret), "dominated by Set(key, append(list, node))")
+				} else {
+					r.Bad(key, w.InstrPos(ret), "a FootnoteLink is returned (and so attached to the tree) on a path that does not enter it into the per-document link list")
+				}
+			}
+		}
+	}
+	r.Expect("returns of a new FootnoteLink", n, 1)
 }
